@@ -152,6 +152,9 @@ type lop struct {
 	K    int           // rm/entry: index into the entries added so far (mod n); -1: unknown id
 	How  string        // sleep: exact between past dur
 	D    time.Duration // sleep: dur / offset past
+	// jump mode: park the scheduler at "arm" right after the wake-up of this
+	// step and issue this operation meanwhile (entries | stop | rm-last | add)
+	Place string
 }
 
 func (o lop) String() string {
@@ -161,6 +164,9 @@ func (o lop) String() string {
 	case "rm", "entry":
 		return fmt.Sprintf("%s(%d)", o.Kind, o.K)
 	case "sleep":
+		if o.Place != "" {
+			return fmt.Sprintf("sleep(%s,%v)+%s@arm", o.How, o.D, o.Place)
+		}
 		return fmt.Sprintf("sleep(%s,%v)", o.How, o.D)
 	}
 	return o.Kind
@@ -213,11 +219,16 @@ func genLockstep(rng *mon.RNG, jump bool, z *zone) []lop {
 		case r < 60:
 			ops = append(ops, lop{Kind: "release"})
 		default:
+			var sl lop
 			if z.set() {
-				ops = append(ops, genSleepLoc(rng, jump))
+				sl = genSleepLoc(rng, jump)
 			} else {
-				ops = append(ops, genSleep(rng, jump))
+				sl = genSleep(rng, jump)
 			}
+			if jump && rng.Chance(1, 8) {
+				sl.Place = rng.PickStr("entries", "stop", "rm-last", "add")
+			}
+			ops = append(ops, sl)
 		}
 	}
 	return ops
@@ -275,7 +286,11 @@ func genBetween(rng *mon.RNG) []lop {
 	default:
 		ops = append(ops, lop{Kind: "sleep", How: "dur", D: time.Duration(midP)*time.Second + time.Duration(rng.Range(0, 999))*time.Millisecond})
 	}
-	// the step after it (the mutant's late start would land here)
+	if rng.Chance(3, 5) {
+		// jump mode only: an operation lands right after that wake-up, before the scheduler re-arms
+		ops[len(ops)-1].Place = rng.PickStr("entries", "entries", "stop", "stop", "rm-last", "add")
+	}
+	// the step after it
 	ops = append(ops, lop{Kind: "sleep", How: "dur", D: time.Duration(rng.Range(100, 900)) * time.Millisecond}, lop{Kind: "entries"})
 	return ops
 }
@@ -502,17 +517,103 @@ func (ls *lockstep) do(o lop) {
 		w.mu.Lock()
 		w.history = append(w.history, fmt.Sprintf("[%s+%v]", ft(now), d))
 		w.mu.Unlock()
+		if T, head := now.Add(d), m.minNext(); !head.IsZero() && !head.After(T) {
+			// a wake-up follows; which "added between" entries does it have to reach?
+			for _, re := range ls.between {
+				if m.find(re.e.id) != re || re.next.After(T) {
+					continue
+				}
+				kind := "past"
+				if re.next.Equal(T) {
+					kind = "exactly_onto"
+				} else if !re.e.sched.Next(re.next).After(T) {
+					kind = "past_several_of"
+				}
+				if ls.jump {
+					rec.Count("between.jump_over_head_and_new_entry", 1)
+					rec.Count("between.jump_"+kind+"_new_entry", 1)
+				} else {
+					rec.Count("between.lockstep_advance_over_new_entry", 1)
+				}
+			}
+			ls.between = nil
+		}
 		if ls.jump {
+			if o.Place != "" {
+				w.mu.Lock()
+				w.parkHook, w.parkAt = "arm", now.Add(d)
+				w.mu.Unlock()
+			}
 			w.vc.Step(d)
 			started, skipped := m.jump(now.Add(d))
 			if skipped > 0 {
 				rec.Count("jump.multi_activation_jumps", 1)
 				rec.Count("jump.starts_once_per_wake", started)
 			}
+			if o.Place != "" {
+				ls.placeAfterWake(o.Place, started)
+			}
 		} else {
 			time.Sleep(d)
 			m.advance(now.Add(d))
 		}
+	}
+}
+
+// placeAfterWake (jump mode): the clock was stepped with the scheduler set to
+// park at "arm" at the new instant, i.e. right after the wake-up of this step
+// has started its jobs and before the next timer is created. While it is
+// parked one client operation is issued; the reference has already performed
+// the complete wake-up (every due entry started, Prev/Next advanced), because
+// the wake-up began before the operation was even called.
+func (ls *lockstep) placeAfterWake(place string, started int) {
+	w, m := ls.w, ls.m
+	synctest.Wait()
+	if !w.parked.Load() {
+		w.mu.Lock()
+		w.parkHook = ""
+		w.mu.Unlock()
+		return // nothing was due: no wake-up, no re-arm
+	}
+	rec.Count("jump.placed_after_wake."+place, 1)
+	if started > 1 {
+		rec.Count("jump.placed_after_wake_with_several_due", 1)
+	}
+	ls.last = "jump+" + place + "@arm"
+	done := make(chan *opRec, 1)
+	var e *ent
+	var id cron.EntryID = 9999
+	if ls.lastAdd != nil {
+		e, id = ls.lastAdd.e, ls.lastAdd.e.id
+	}
+	go func() {
+		switch place {
+		case "entries":
+			done <- w.entries(0)
+		case "stop":
+			done <- w.stop(0)
+		case "rm-last":
+			done <- w.remove(0, e, id)
+		case "add":
+			done <- w.add(0, schedSpec{Every: 2 * time.Second, Via: "schedule"})
+		}
+	}()
+	mon.Quiesce()
+	w.parked.Store(false)
+	w.resume <- struct{}{}
+	r := <-done
+	switch place {
+	case "entries":
+		ls.compareEntries(r)
+	case "stop":
+		m.stop()
+		ls.between = nil
+	case "rm-last":
+		m.remove(id)
+		ls.between = nil
+	case "add":
+		m.add(r.e, r.at)
+		ls.lastAdd = m.ents[len(m.ents)-1]
 	}
 }
 
